@@ -285,7 +285,7 @@ def _aux_pool(S, cfg, pool, W, main_spec):
 
 def _mk_world(S, cfg, specs, vias, tier):
     pool = {}
-    W = {'kinds': {}, 'specs': {}, 'results': {}}
+    W = {'kinds': {}, 'specs': {}, 'results': {}, 'sticky': {'enzyme': S.pick(catalog.ENZ)}}
     for i, sp in enumerate(specs):
         h = f'A{i}'
         pool[h] = {'kind': 'ann', 'via': vias[i], 'spec': sp}
@@ -318,7 +318,51 @@ def gen_plan(S, index, tier):
     sandwich_runs = len(queries) * len(world.FIXED_SPECS) * 2
     if index < pair_runs + sweep_runs + sandwich_runs:
         return _gen_sandwich_plan(S, index - pair_runs - sweep_runs, header, queries)
+    lazies = [n for n in opnames if OPS[n].lazy]
+    lazy_runs = len(lazies) * len(queries) * 2
+    if index < pair_runs + sweep_runs + sandwich_runs + lazy_runs:
+        return _gen_lazy_pair_plan(S, index - pair_runs - sweep_runs - sandwich_runs, header, lazies, queries)
     return _gen_random_plan(S, header, tier)
+
+
+def _gen_lazy_pair_plan(S, k, header, lazies, queries):
+    """a lazy result is opened and advanced by one item, then another client's query runs (also evaluated in the
+    pristine process), then the lazy result is either drained or abandoned: every (lazy op, query) pair, twice"""
+    rep, rest = divmod(k, len(lazies) * len(queries))
+    li, qi = divmod(rest, len(queries))
+    cfg = SP.swarm_cfg(S)
+    sp = copy.deepcopy(world.FIXED_SPECS[rep % 2 * 2])      # Spec 0 or Spec 2
+    short = copy.deepcopy(world.FIXED_SPECS[3])
+    pool, W = _mk_world(S, cfg, [sp, short], ['parse', 'parse'], 'quick')
+    W['sticky']['enzyme'] = S.pick(['trypsin', 'trypsin/P', '([KR])', 'lys-c', 'asp-n', '(?=D)'])
+    lname, qname = lazies[li], queries[qi]
+    header.update({'mode': 'lazy-pair', 'pair': [lname, qname], 'clients': 2, 'faults': ['interleave', 'abandon']})
+    events = []
+    la = qa = None
+    for _ in range(6):
+        la = la or OPS[lname].gen(S, W)
+        qa = qa or OPS[qname].gen(S, W)
+    if la is None or qa is None:
+        return {'header': header, 'pool': pool, 'events': events}
+    for args in (la, qa):
+        if 'size' not in args and 'max_mods' not in args:
+            for an, av in args.items():
+                if isinstance(av, dict) and av.get('h') in ('A1', 'S0') and an in ('sequence', 'self'):
+                    args[an] = {'h': 'A0'}
+    events.append({'act': 'call', 'client': 0, 'op': lname, 'args': la, 'out': 'R0', 'twin_first': S.coin(0.5),
+                   'ref': 'pristine'})
+    events.append({'act': 'step', 'client': 0, 'lazy': 'R0'})
+    events.append({'act': 'call', 'client': 1, 'op': qname, 'args': qa, 'out': 'R1', 'twin_first': S.coin(0.5),
+                   'pristine': True})
+    if OPS[qname].lazy:
+        events.append({'act': 'drain', 'client': 1, 'lazy': 'R1'})
+    events.append({'act': 'close' if S.coin(0.4) else 'drain', 'client': 0, 'lazy': 'R0'})
+    # and once more afterwards: the history of an abandoned / interleaved lazy result must not show
+    events.append({'act': 'call', 'client': 1, 'op': qname, 'args': copy.deepcopy(qa), 'out': 'R2', 'twin_first': False,
+                   'pristine': True})
+    if OPS[qname].lazy:
+        events.append({'act': 'drain', 'client': 1, 'lazy': 'R2'})
+    return {'header': header, 'pool': pool, 'events': events}
 
 
 def _gen_sandwich_plan(S, k, header, queries):
@@ -461,7 +505,7 @@ def _gen_pair_plan(S, index, header, opnames):
         rh = f'R{nres}'
         nres += 1
         events.append({'act': 'call', 'client': c, 'op': name, 'args': args, 'out': rh, 'twin_first': S.coin(0.5),
-                       'pristine': c == 1 and not o.lazy and S.coin(0.06)})
+                       'pristine': c == 1 and S.coin(0.06)})
         W['results'][rh] = name
         if o.lazy:
             events.append({'act': 'drain', 'client': c, 'lazy': rh})
@@ -527,7 +571,8 @@ def _gen_random_plan(S, header, tier):
             rh = f'R{nres}'
             nres += 1
             events.append({'act': 'call', 'client': client, 'op': name, 'args': args, 'out': rh,
-                           'twin_first': S.coin(0.5), 'pristine': not OPS[name].lazy and S.coin(0.05)})
+                           'twin_first': S.coin(0.5), 'pristine': S.coin(0.05),
+                           'ref': 'pristine' if S.coin(0.04) else None})
             W['results'][rh] = name
             calls += 1
             if OPS[name].lazy:
@@ -784,7 +829,27 @@ def _do_call(run, ev_i, ev, touched):
     if len(set(a['h'] for a in ev['args'].values() if 'h' in a)) < len([a for a in ev['args'].values() if 'h' in a]):
         out.faults['reuse'] += 1
 
+    ref_pristine = (ev.get('ref') == 'pristine' and _PRISTINE is not None and not o.rng
+                    and all(('h' in a or 'v' in a or 'nf' in a) for a in ev['args'].values()))
+
     def twin_eval():
+        """the reference result, already dumped: (True, dump | list of item dumps) or (False, exception dump).
+        Normally the same call on fresh twins in this process; for events flagged ref=pristine the reference comes
+        from the pristine process instead and NOTHING extra is evaluated here - an in-process twin would itself fill
+        (and thereby repair) a process-wide cache that the call under test is about to leave half-filled."""
+        if ref_pristine:
+            req = {'op': ev['op'], 'args': ev['args'], 'rng': 1234 + ev_i,
+                   'snaps': {a['h']: snaps[a['h']] for a in ev['args'].values() if 'h' in a}}
+            ans = _PRISTINE.eval(req)
+            if ans[0] != 'ok':
+                raise HarnessError(f"pristine evaluation failed: {ans}")
+            out.probes['reference_from_pristine_process'] += 1
+            nf = ans[1]
+            if N.is_exc(nf):
+                return False, nf
+            if o.lazy:
+                return True, nf[1]
+            return True, nf
         st = random.getstate()
         random.seed(987654321 + ev_i)   # the fresh object is evaluated under another RNG state
         try:
@@ -799,7 +864,7 @@ def _do_call(run, ev_i, ev, touched):
                 except Exception as e:
                     items.append(N.norm_exc(e))
                 return ok_, items
-            return ok_, r
+            return ok_, (N.norm(r) if ok_ else N.norm_exc(r))
         finally:
             random.setstate(st)
 
@@ -846,18 +911,20 @@ def _do_call(run, ev_i, ev, touched):
         run.lazies[ev['out']] = {'gen': s_res, 'twin_ok': t_ok, 'twin_items': t_res if t_ok else None, 'k': 0,
                                  'done': False, 'op': ev['op'], 'calls_at_open': run.calls_since, 'ev': ev}
         run.results[ev['out']] = {'val': None, 'ev': ev, 'op': ev['op']}
+        if t_ok and _pristine_check(run, ev_i, ev, o, snaps, ['list', t_res]):
+            return True
         if not t_ok:
             if run.violation('HIST', ev['op'], 'raises',
                              f"HIST: {ev['op']} returned a lazy result on the shared object but raised "
-                             f"{N.norm_exc(t_res)} on a fresh twin", ev_i, None):
+                             f"{t_res} on a fresh twin", ev_i, None):
                 return True
         out.record([ev_i, 'lazy-open'])
         run.calls_since += 1
         return False
     if o.lazy and not s_ok:
-        nt = ['exc', 'NoError', ''] if t_ok else N.norm_exc(t_res)
+        nt = ['exc', 'NoError', ''] if t_ok else t_res
     else:
-        nt = N.norm(t_res) if t_ok else N.norm_exc(t_res)
+        nt = t_res
     out.record([ev_i, ns if not o.rng else 'rng'])
     if not o.rng:
         out.oracle_checks += 1
@@ -867,25 +934,34 @@ def _do_call(run, ev_i, ev, touched):
                              f"HIST: {ev['op']} on the shared object after {ev_i} earlier events differs from the same "
                              f"call on a fresh twin: {d}", ev_i, None, {'shared': _clip(ns), 'fresh': _clip(nt)}):
                 return True
-    if ev.get('pristine') and _PRISTINE is not None and not o.rng \
-            and all(('h' in a or 'v' in a or 'nf' in a) for a in ev['args'].values()):
-        req = {'op': ev['op'], 'args': ev['args'], 'rng': 1234 + ev_i,
-               'snaps': {a['h']: snaps[a['h']] for a in ev['args'].values() if 'h' in a}}
-        ans = _PRISTINE.eval(req)
-        if ans[0] != 'ok':
-            raise HarnessError(f"pristine evaluation failed: {ans}")
-        out.oracle_checks += 1
-        out.probes['pristine_process_comparisons'] += 1
-        d = N.same(ns, ans[1], '')
-        if d is not None:
-            if run.violation('PRISTINE', ev['op'], _coarse(d),
+    if _pristine_check(run, ev_i, ev, o, snaps, ns):
+        return True
+    run.results[ev['out']] = {'val': s_res if s_ok else None, 'ev': ev, 'op': ev['op']}
+    run.calls_since += 1
+    return False
+
+
+def _pristine_check(run, ev_i, ev, o, snaps, here):
+    """compare what this process computed (`here`: the dump of the result, for a lazy result the eagerly consumed
+    twin) with the same call on fresh objects in the pristine process"""
+    out = run.out
+    if not (ev.get('pristine') and _PRISTINE is not None and not o.rng
+            and all(('h' in a or 'v' in a or 'nf' in a) for a in ev['args'].values())):
+        return False
+    req = {'op': ev['op'], 'args': ev['args'], 'rng': 1234 + ev_i,
+           'snaps': {a['h']: snaps[a['h']] for a in ev['args'].values() if 'h' in a}}
+    ans = _PRISTINE.eval(req)
+    if ans[0] != 'ok':
+        raise HarnessError(f"pristine evaluation failed: {ans}")
+    out.oracle_checks += 1
+    out.probes['pristine_process_comparisons'] += 1
+    d = N.same(here, ans[1], '')
+    if d is not None:
+        return run.violation('PRISTINE', ev['op'], _coarse(d),
                              f"PRISTINE: {ev['op']} in this process (after {ev_i} earlier events of this run and the runs "
                              f"before it in this worker) differs from the same call on fresh objects in a process that "
                              f"has executed nothing since import: {d}", ev_i, None,
-                             {'here': _clip(ns), 'pristine': _clip(ans[1])}):
-                return True
-    run.results[ev['out']] = {'val': s_res if s_ok else None, 'ev': ev, 'op': ev['op']}
-    run.calls_since += 1
+                             {'here': _clip(here), 'pristine': _clip(ans[1])})
     return False
 
 
@@ -1066,16 +1142,19 @@ RULE = (f"catalogue of {len(OPS)} ops ({len(OPS) - len(catalog.EDITORS)} queries
         "systematic family - ordered pair (op_a, op_b) applied by two clients to one shared all-features annotation (5 fixed "
         "Specs); next n*5*3: poison sweep - every op once on every fixed Spec with one unresolvable modification at the first "
         "residue / last residue / C-terminus, followed by a mass call; next q*5*2: sandwich - query, explicit editor, the same "
-        "query again; other indices: seeded random history of 2-12 catalogue calls by 1-3 clients on 1-4 shared generated "
+        "query again; next l*q*2: lazy pairs - a lazy result advanced by one item, another client's query (also evaluated in "
+        "the pristine process), the lazy result drained or abandoned, the query again; other indices: seeded random history of 2-12 catalogue calls by 1-3 clients on 1-4 shared generated "
         "annotations plus shared list/dict arguments, with interleaved single steps / abandonment of lazy results, scribbles "
         "on returned values, RNG use, vocabulary refresh and poisoned modifications, per-run swarm switches; ~5% of the calls "
         "are also evaluated in a pristine forked process. Distinct = distinct sequence of (event kind | op name); non-trivial "
         "= some shared pool object was passed to at least two calls and at least one oracle comparison ran.")
 EXPECTED_PROBES = ['twin_first', 'call_raised', 'lazy_stepped_across_a_call', 'abandoned_after_first_item',
-                   'explicit_editor_event', 'pristine_process_comparisons']
+                   'explicit_editor_event', 'pristine_process_comparisons', 'reference_from_pristine_process']
 _NOPS = len(OPS)
 _NQ = len([o for o in OPS.values() if 'editor' not in o.tags])
-FAMILY_STARTS = [0, _NOPS * _NOPS * 5, _NOPS * _NOPS * 5 + _NOPS * 15, _NOPS * _NOPS * 5 + _NOPS * 15 + _NQ * 10]
+_NL = len([o for o in OPS.values() if o.lazy])
+FAMILY_STARTS = [0, _NOPS * _NOPS * 5, _NOPS * _NOPS * 5 + _NOPS * 15, _NOPS * _NOPS * 5 + _NOPS * 15 + _NQ * 10,
+                 _NOPS * _NOPS * 5 + _NOPS * 15 + _NQ * 10 + _NL * _NQ * 2]
 ASSUMPTIONS = [
     "field accessors (properties, has_*, get_internal_mods_by_index) and Fragment.parent_sequence are references into "
     "the object by design and are not treated as 'results' for the aliasing clause",
